@@ -114,21 +114,21 @@ PROPS["C20"] = dict(
 # one module per group of translated functions, so that a function leaving the translatable subset breaks only the
 # properties resting on it)
 PROPS_EXTRA = {
-    'C01': ['Props.GenHeads', 'Props.GenJoin', 'Props.GenTraverse'],
-    'C02': ['Props.C13Facts', 'Props.GenHeads'],
+    'C01': ['Props.GenHeads', 'Props.GenJoin', 'Props.GenTraverse', 'Props.GenJoinTail'],
+    'C02': ['Props.C13Facts', 'Props.GenHeads', 'Props.GenJoinTail'],
     'C03': ['Props.C19Gen', 'Props.GenTraverse'],
     'C04': ['Props.C04Conc', 'Props.GenMisc'],
-    'C05': ['Props.GenTraverse'],
-    'C06': ['Props.EffectFacts', 'Props.CodecFacts', 'Props.GenHeads', 'Props.GenJoin'],
+    'C05': ['Props.GenTraverse', 'Props.GenJoinTail'],
+    'C06': ['Props.EffectFacts', 'Props.CodecFacts', 'Props.GenHeads', 'Props.GenJoin', 'Props.GenJoinTail'],
     'C07': ['Props.CodecFacts'],
     'C08': ['Props.CodecFacts', 'Props.GenMisc'],
     'C09': ['Props.GenFetcher', 'Props.GenHeads', 'Props.GenLoaders'],
     'C10': ['Props.GenFetcher', 'Props.GenLoaders'],
     'C11': ['Props.GenFetcher'],
     'C12': ['Props.CodecFacts', 'Props.GenFetcher'],
-    'C14': ['Props.GenHeads', 'Props.GenJoin'],
+    'C14': ['Props.GenHeads', 'Props.GenJoin', 'Props.GenJoinTail'],
     'C15': ['Props.C13Facts', 'Props.GenTraverse'],
-    'C16': ['Props.GenJoin'],
+    'C16': ['Props.GenJoin', 'Props.GenJoinTail'],
     'C17': ['Props.EffectFacts', 'Props.GenFetcher'],
     'C18': ['Props.CodecFacts', 'Props.GenMisc'],
     'C19': ['Props.C19Gen'],
